@@ -232,6 +232,50 @@ Theorem C06_site_fair_burn_world : forall contract payer p F b b1 b',
   bal_get b' contract NATIVE + F = bal_get b contract NATIVE + p.
 Proof. exact fair_burn_world. Qed.
 
+(* ------------------------------------------------------------------------------------
+   THE CONTRACT'S OWN BALANCE.  A site disposes of the fee out of the payment that comes
+   with the call, never out of what the contract already holds (coins left behind by an
+   earlier over-payment, or sent to its address).  b is an ARBITRARY balance sheet. *)
+
+(* every site, every prior balance: what the contract held in any denom before an accepted
+   call it still holds afterwards *)
+Theorem C06_site_prior_balance_untouched : forall (s : site) (contract payer : addr) funds (b b' : bal),
+  match s with SMint _ _ _ bps => bps <= 10000 | _ => True end ->
+  contract <> payer ->
+  site_world s contract payer funds b = Ok b' ->
+  forall d, bal_get b contract d <= bal_get b' contract d.
+Proof. exact site_prior_balance_untouched. Qed.
+
+(* every fair-burn site (F with the documented numbers): a payment below F, or funds that
+   are not a single ustars coin, are rejected WHATEVER the contract or anybody else holds *)
+Theorem C06_site_underpayment_rejected_whatever_held : forall (s : site) (contract payer : addr) funds (b : bal) (F : N),
+  match s with
+  | SCreate _ fee_denom _ fee => fee_denom = NATIVE /\ F = fee
+  | SShuffle fee => F = fee
+  | SWlCreate _ member_limit => F = (member_limit + 999) / 1000 * 100000000
+  | SWlIncrease _ old new => F = ((new + 999) / 1000 - (old + 999) / 1000) * 100000000
+  | SWlMerkleCreate _ => F = 1000000000
+  | SEnableUpdatable => F = 1500000000
+  | SAirdropInit => F = 100000000
+  | SBaseMint price bps => F = price * bps / 10000
+  | SMint _ _ _ _ => False
+  end ->
+  (may_pay funds NATIVE = Err \/ exists p, may_pay funds NATIVE = Ok p /\ p < F) ->
+  site_world s contract payer funds b = Err.
+Proof. exact underpayment_rejected_whatever_held. Qed.
+
+(* the creation fee in any denom, at world level *)
+Theorem C06_site_creation_rejects_whatever_held : forall k factory payer fee_denom mint_denom F funds (b : bal),
+  (must_pay funds fee_denom = Err \/ exists p, must_pay funds fee_denom = Ok p /\ p < F) ->
+  site_world (SCreate k fee_denom mint_denom F) factory payer funds b = Err.
+Proof. exact creation_rejects_whatever_held. Qed.
+
+(* a mint is paid exactly, whatever the minter holds *)
+Theorem C06_site_mint_inexact_rejected_whatever_held : forall k d price bps minter payer funds (b : bal),
+  (may_pay funds d = Err \/ exists p, may_pay funds d = Ok p /\ p <> price) ->
+  site_world (SMint k d price bps) minter payer funds b = Err.
+Proof. exact mint_inexact_rejected_whatever_held. Qed.
+
 (* non-vacuity: concrete values, including the ends of the u128 range *)
 Example C06_ex_fair_burn_9 : fair_burn 7 9 None = Ok [Burn NATIVE 4; FundPool 7 NATIVE 5].
 Proof. vm_compute. reflexivity. Qed.
@@ -263,6 +307,18 @@ Example C06_ex_site_oe_mint_fee_3 :
   site_mint_fee (MsOpen 9) 0 30 1000 [mkCoin 0 30] = Ok [Send 9 0 2; Send A_LIQUIDITY_DAO 0 1; Send A_LAUNCHPAD_DAO 0 0].
 Proof. vm_compute. reflexivity. Qed.
 
+(* a base factory holding 400 000 000 ustars left behind by an over-payment: a payment of
+   600 000 000 for a fee of 1 000 000 000 is rejected; the exact fee leaves the 400 000 000 alone *)
+Example C06_ex_site_stranded_coins_underpayment :
+  site_world (SCreate FsBase NATIVE NATIVE 1000000000) 20 21 [mkCoin NATIVE 600000000]
+             [(20, NATIVE, 400000000); (21, NATIVE, 5000000000)] = Err.
+Proof. vm_compute. reflexivity. Qed.
+Example C06_ex_site_stranded_coins_untouched :
+  site_world (SCreate FsBase NATIVE NATIVE 1000000000) 20 21 [mkCoin NATIVE 1000000000]
+             [(20, NATIVE, 400000000); (21, NATIVE, 5000000000)] =
+  Ok [(20, NATIVE, 400000000); (21, NATIVE, 4000000000); (A_BURNED, NATIVE, 500000000); (A_FAIRBURN_POOL, NATIVE, 500000000)].
+Proof. vm_compute. reflexivity. Qed.
+
 Print Assumptions C06_addresses.
 Print Assumptions C06_fair_burn_exact.
 Print Assumptions C06_fair_burn_conserves.
@@ -290,3 +346,9 @@ Print Assumptions C06_site_world_balances.
 Print Assumptions C06_site_fair_burn_world.
 Print Assumptions C06_ex_site_vending_ibc_mint_denom.
 Print Assumptions C06_ex_site_world_airdrop.
+Print Assumptions C06_site_prior_balance_untouched.
+Print Assumptions C06_site_underpayment_rejected_whatever_held.
+Print Assumptions C06_site_creation_rejects_whatever_held.
+Print Assumptions C06_site_mint_inexact_rejected_whatever_held.
+Print Assumptions C06_ex_site_stranded_coins_underpayment.
+Print Assumptions C06_ex_site_stranded_coins_untouched.
